@@ -2,7 +2,8 @@
 import re
 
 from . import c14
-from .lib import PLUMBING, callee_allow, closure_of_operand, try_edges, operand_local
+from . import lib_c14 as L
+from .lib import PLUMBING, closure_of_operand, result_split
 
 LEVEL = "other"
 TECHNIQUE = ("static analysis: backward slices of the two fields of the ResultsPage built by ResultsPage::new (token from the LAST item through Option::map / match, items moved unmodified, "
@@ -25,24 +26,15 @@ FNCALL = r"^std::ops::(Fn|FnMut|FnOnce)::(call|call_mut|call_once)$"
 VEC_VIEW = [r"Vec::<T, A>::as_slice$", r"^core::slice::<impl \[T\]>::iter$"]
 
 
-def _mut_borrows(f, locals_):
-    out = []
-    for bb, i, st in f.stmts():
-        rv = st["rv"]
-        if rv["rv"] in ("ref", "rawptr") and rv.get("mut", rv["rv"] == "rawptr") and rv["pl"]["l"] in locals_:
-            out.append(bb)
-    return out
-
-
-def _tuple_elem0(g, op):
-    """First element operand of the argument tuple of an Fn::call."""
-    l = operand_local(op)
-    if l is None:
+def _origin_in_parent(f, g, node, o):
+    """An origin inside closure g that is a captured variable (field k of the environment): its origins in the parent f,
+    through the operands of the closure aggregate `node`.  Anything else: None."""
+    if o.kind != "param" or o.info["index"] != 1 or len(o.proj) != 1 or o.proj[0][0] != "f" or node is None:
         return None
-    ds = [n for bb, k, n in g.defs().get(l, []) if k == "assign" and not n["pl"]["p"]]
-    if len(ds) != 1 or ds[0]["rv"]["rv"] != "agg" or ds[0]["rv"].get("agg") != "tuple" or not ds[0]["rv"]["ops"]:
+    k = o.proj[0][1]
+    if k >= len(node["rv"]["ops"]):
         return None
-    return ds[0]["rv"]["ops"][0]
+    return L.trace(f, node["rv"]["ops"][k], PLUMBING)[0]
 
 
 def r1_results_page(ctx):
@@ -50,19 +42,23 @@ def r1_results_page(ctx):
                  "with errors propagated, and items is moved into the page unmodified", floor=8)
     f = ctx.need_fn(ctx.ds, R, NEW)
     fns = [f] + ctx.ds.descendants(f)
-    reach = f.reachable(0)
-    aggs = [(bb, st) for bb, i, st in f.aggregates("^" + re.escape(PAGE_ADT) + "$") if bb in reach]
     fields = [fl["name"] for fl in ctx.ds.adts[PAGE_ADT]["variants"][0]["fields"]]
-    if len(aggs) != 1 or "next_page" not in fields or "items" not in fields:
-        ctx.lost(R, "the single ResultsPage{next_page, items} aggregate in ResultsPage::new (%d)" % len(aggs))
+    # every Ok(..) the constructor returns is a ResultsPage{next_page, items} built here (one, or one per early return)
+    pages, _ = L.ok_payload(f)
+    aggs = [o for o in pages if o.kind == "agg" and o.info.get("adt") == PAGE_ADT and not o.proj and not o.info.get("via_map")]
+    if not aggs or len(aggs) != len(pages) or "next_page" not in fields or "items" not in fields:
+        ctx.lost(R, "ResultsPage{next_page, items} aggregates as the only Ok payload of ResultsPage::new (payload originates from %s)" % L.describe(pages))
         return
-    abb, ast = aggs[0]
-    op_next, op_items = ast["rv"]["ops"][fields.index("next_page")], ast["rv"]["ops"][fields.index("items")]
+    i_next, i_items = fields.index("next_page"), fields.index("items")
+    page_sites = [a.bb for a in aggs]
     # ---- items
-    si = f.slice(op_items)
-    muts = _mut_borrows(f, si.locals())
-    ctx.check(R, "items-moved-unmodified", si.params() == [1] and not si.callees and not muts and not [a for a in si.atoms if a[0] in ("const", "lit", "agg")],
-              "ResultsPage.items slices to params %s, callees %s, &mut borrows of it: %d" % (si.params(), si.callee_names(), len(muts)), (f, abb))
+    ok_items, txt = True, []
+    for a in aggs:
+        o, st = L.trace(f, a.info["fields"][i_items], PLUMBING)
+        muts = L.mut_borrows(f, st.locals)
+        ok_items = ok_items and L.only_param(o, 1) and not muts
+        txt.append("%s, &mut borrows of it: %d" % (L.describe(o), len(muts)))
+    ctx.check(R, "items-moved-unmodified", ok_items, "ResultsPage.items originates from %s" % "; ".join(txt), (f, aggs[0].bb))
     # ---- last()
     lasts = [(bb, t) for bb, t in f.live_calls(LAST)]
     firsts = [t["callee"] for g in fns for bb, t in g.live_calls(r"slice::<impl \[T\]>::(first|get|split_first|first_chunk)$|ops::Index::index$")]
@@ -70,100 +66,97 @@ def r1_results_page(ctx):
         ctx.lost(R, "<[T]>::last(items) in ResultsPage::new (%d call sites; other element accessors: %s)" % (len(lasts), firsts))
         return
     lbb, lt = lasts[0]
-    sl = f.slice(lt["args"][0])
-    bad = callee_allow(sl, PLUMBING + VEC_VIEW)
-    ctx.check(R, "last-of-items", sl.params() == [1] and not bad and not firsts,
-              "receiver of last() slices to params %s via %s; other element accessors in the function: %s" % (sl.params(), [b[0] for b in bad] or "Deref only", firsts), (f, lbb))
-    # ---- the serialize call
+    o, _ = L.trace(f, lt["args"][0], PLUMBING + VEC_VIEW)
+    ctx.check(R, "last-of-items", L.only_param(o, 1) and not firsts,
+              "receiver of last() originates from %s; other element accessors in the function: %s" % (L.describe(o), firsts), (f, lbb))
+    # ---- the serialize call and the selector call feeding it
     sers = [(g, bb, t) for g in fns for bb, t in g.live_calls(c14.SER)]
     if len(sers) != 1:
         ctx.lost(R, "serialize_page_token call in ResultsPage::new or its closures (%d)" % len(sers))
         return
     g, sbb, st = sers[0]
-    ss = g.slice(st["args"][0])
-    sel = [(c, bb, t) for c, bb, t in ss.calls(FNCALL)]
-    bad = callee_allow(ss, PLUMBING + [FNCALL, LAST, r"Option::<T>::map$"] + VEC_VIEW)
-    if len(sel) != 1:
-        ctx.lost(R, "the get_page_selector(..) call feeding serialize_page_token (%d)" % len(sel))
+    so, _ = L.trace(g, st["args"][0], PLUMBING)
+    sel = so[0] if len(so) == 1 and so[0].is_call(FNCALL) and not so[0].proj else None
+    ctx.check(R, "token-is-of-the-selector", sel is not None, "serialize_page_token's argument originates from %s (must be the selector function's result)" % L.describe(so), (g, sbb))
+    if sel is None:
+        ctx.lost(R, "the get_page_selector(..) call feeding serialize_page_token")
         return
-    ctx.check(R, "token-is-of-the-selector", not bad, "serialize_page_token's argument is the selector function's result via %s" % ([b[0] for b in bad] or "moves only"), (g, sbb))
-    _, cbb, ct = sel[0]
-    item = _tuple_elem0(g, ct["args"][1]) if len(ct["args"]) > 1 else None
-    if item is None:
-        ctx.lost(R, "argument tuple of the selector call")
+    cbb, ct = sel.bb, sel.node
+    tup, _ = L.trace(g, ct["args"][1]) if len(ct["args"]) > 1 else ([], None)
+    if len(tup) != 1 or tup[0].kind != "agg" or tup[0].info.get("agg") != "tuple" or len(tup[0].info["fields"]) != 2:
+        ctx.lost(R, "argument tuple (item, scan_params) of the selector call")
         return
-    s_item = g.slice(item)
-    s_fn = g.slice(ct["args"][0])
-    next_sl = f.slice(op_next)
+    o_item, _ = L.trace(g, tup[0].info["fields"][0], PLUMBING)
+    o_scan, _ = L.trace(g, tup[0].info["fields"][1], PLUMBING)
+    o_fn, _ = L.trace(g, ct["args"][0], PLUMBING)
+    # the token value(s) stored in next_page, and how Some-ness follows last()
+    nexts = []
+    for a in aggs:
+        nexts += [o for o in L.trace(f, a.info["fields"][i_next], PLUMBING)[0] if o not in nexts]
+    feas = L.Feas(f)
+    closure_node = None
     if g is not f:
-        # closure form: g is passed to Option::map over last()
-        maps = []
-        for mbb, mt in f.live_calls(r"Option::<T>::(map|and_then)$"):
-            h, _n = closure_of_operand(f, mt["args"][1])
-            if h is g:
-                maps.append((mbb, mt))
-        if len(maps) != 1:
-            ctx.lost(R, "Option::map taking the token closure (%d)" % len(maps))
-            return
-        mbb, mt = maps[0]
-        rs = f.slice(mt["args"][0])
-        badr = callee_allow(rs, PLUMBING + [LAST] + VEC_VIEW)
-        ctx.check(R, "selector-item-is-the-last-item", s_item.params() == [2] and not s_item.callees and any(b == lbb for _, b, _ in rs.calls(LAST)) and not badr,
-                  "selector's item argument = closure parameter (params %s, callees %s); the closure is mapped over last(items) via %s" % (s_item.params(), s_item.callee_names(), [b[0] for b in badr] or "nothing else"), (g, cbb))
-        retg = g.slice({"l": 0, "p": []})
-        badg = callee_allow(retg, PLUMBING + [FNCALL, c14.SER])
-        ctx.check(R, "closure-returns-the-token", any(b == sbb for _, b, _ in retg.calls(c14.SER)) and not badg, "closure result is serialize_page_token(..) via %s" % ([b[0] for b in badg] or "nothing else"), g)
-        # selector function & scan params are the function's own parameters
-        _h, node = closure_of_operand(f, mt["args"][1])
-        caps = set()
-        for o in node["rv"]["ops"]:
-            caps |= set(f.slice(o).params())
-        ctx.check(R, "selector-and-scan-params-are-the-arguments", caps == {2, 3}, "closure captures parameters %s (scan_params, get_page_selector)" % sorted(caps), (f, mbb))
-        badn = callee_allow(next_sl, PLUMBING + [LAST, r"Option::<T>::(map|and_then)$", r"Option::<std::result::Result<T, E>>::transpose$"] + VEC_VIEW)
-        guarded_sites = [abb]
-        ctx.check(R, "next_page-present-iff-last-is", any(b == mbb for _, b, _ in next_sl.calls(r"Option::<T>::(map|and_then)$")) and not badn,
-                  "ResultsPage.next_page derives from last(items).map(token closure) via %s (Some-ness preserving)" % ([b[0] for b in badn] or "transpose and `?` only"), (f, abb))
+        # closure form: last(items).map(|item| serialize_page_token(selector(item, scan))).transpose() -> `?` / match
+        tr = [o for o in nexts if o.is_call(r"Option::<std::result::Result<T, E>>::transpose$", None, L.OK_0)]
+        mp, recv = [], []
+        for o in tr:
+            mp += L.trace(f, o.node["args"][0], PLUMBING)[0]
+        maps = [o for o in mp if o.is_call(r"Option::<T>::map$") and not o.proj and len(o.node["args"]) > 1 and closure_of_operand(f, o.node["args"][1])[0] is g]
+        for o in maps:
+            recv += L.trace(f, o.node["args"][0], PLUMBING + VEC_VIEW)[0]
+            closure_node = closure_of_operand(f, o.node["args"][1])[1]
+        shape = len(tr) == len(nexts) >= 1 and len(maps) == len(mp) == 1
+        ctx.check(R, "selector-item-is-the-last-item", L.only_param(o_item, 2) and shape and L.only_call(recv, LAST, lbb, ()),
+                  "selector's item argument originates from %s of the closure, which is mapped over %s" % (L.describe(o_item), L.describe(recv)), (g, cbb))
+        ro, _ = L.trace(g, (0, ()), PLUMBING)
+        ctx.check(R, "closure-returns-the-token", L.only_call(ro, c14.SER, sbb, ()), "closure result originates from %s (must be the serialize_page_token(..) result)" % L.describe(ro), g)
+        pf = [_origin_in_parent(f, g, closure_node, x) for x in o_fn] if len(o_fn) == 1 else [None]
+        ps = [_origin_in_parent(f, g, closure_node, x) for x in o_scan] if len(o_scan) == 1 else [None]
+        ctx.check(R, "selector-and-scan-params-are-the-arguments", pf[0] is not None and ps[0] is not None and L.only_param(pf[0], 3) and L.only_param(ps[0], 2),
+                  "the selector function is %s, its second argument %s (must be new()'s get_page_selector and scan_params)" % (
+                      L.describe(pf[0] or o_fn), L.describe(ps[0] or o_scan)), (g, cbb))
+        ctx.check(R, "next_page-present-iff-last-is", shape and L.only_call(recv, LAST, lbb, ()),
+                  "ResultsPage.next_page originates from %s, i.e. transpose(map(%s, token closure)): Some exactly when last(items) is" % (L.describe(nexts), L.describe(recv)), (f, aggs[0].bb))
+        err_local = tr[0].node["dest"]["l"] if shape else None
     else:
-        # inline form: match items.last() { Some(x) => Some(token(x)?), None => None }
-        bads = callee_allow(s_item, PLUMBING + [LAST] + VEC_VIEW)
-        ctx.check(R, "selector-item-is-the-last-item", any(b == lbb for _, b, _ in s_item.calls(LAST)) and not bads,
-                  "selector's item argument is the payload of last(items) via %s" % ([b[0] for b in bads] or "nothing else"), (f, cbb))
-        ctx.check(R, "selector-and-scan-params-are-the-arguments", set(s_fn.params()) | set(g.slice(ct["args"][1]).params()) >= {2, 3},
-                  "selector call uses parameters %s" % sorted(set(s_fn.params()) | set(g.slice(ct["args"][1]).params())), (f, cbb))
-        sw = [(b, info) for b, info in ((b, f.switch_on(b)) for b, _ in f.switches())
-              if info["kind"] == "discr" and info["place"]["l"] == lt["dest"]["l"] and not info["place"]["p"]]
-        if len(sw) != 1:
-            ctx.lost(R, "match on last(items) (%d switches)" % len(sw))
-            return
-        wbb, info = sw[0]
-        vidx = {n: v for v, n in info["variants"].items()}
-        some_t, none_t = f.switch_target(wbb, vidx["Some"]), f.switch_target(wbb, vidx["None"])
-        somes = [bb for bb, i, s in f.aggregates(r"^std::option::Option$", "Some") if bb in reach and next_sl.touches_local(s["pl"]["l"])]
-        nones = [bb for bb, i, s in f.aggregates(r"^std::option::Option$", "None") if bb in reach and next_sl.touches_local(s["pl"]["l"])]
-        badn = callee_allow(next_sl, PLUMBING + [LAST, FNCALL, c14.SER] + VEC_VIEW)
-        ok = bool(somes) and bool(nones) and all(f.edge_dominates(wbb, some_t, b) for b in somes) and all(f.edge_dominates(wbb, none_t, b) for b in nones) \
-            and not any(b in f.reachable(none_t) for b in somes) and not any(b in f.reachable(some_t) for b in nones if not f.edge_dominates(wbb, none_t, b)) and not badn \
-            and f.edge_dominates(wbb, some_t, sbb)
+        # inline form: Some(token) built where last(items) is known Some, None where it is known None (match / if let / let-else)
+        ctx.check(R, "selector-item-is-the-last-item", L.only_call(o_item, LAST, lbb, L.SOME_0),
+                  "selector's item argument originates from %s (must be the Some payload of last(items))" % L.describe(o_item), (f, cbb))
+        ctx.check(R, "selector-and-scan-params-are-the-arguments", L.only_param(o_fn, 3) and L.only_param(o_scan, 2),
+                  "the selector function is %s, its second argument %s (must be new()'s get_page_selector and scan_params)" % (L.describe(o_fn), L.describe(o_scan)), (f, cbb))
+        somes = [o for o in nexts if o.kind == "agg" and o.info.get("adt") == "std::option::Option" and o.info.get("variant") == "Some" and not o.proj]
+        nones = [o for o in nexts if o.kind == "agg" and o.info.get("adt") == "std::option::Option" and o.info.get("variant") == "None" and not o.proj]
         tok_ok = bool(somes)
-        for bb, i, s_ in f.aggregates(r"^std::option::Option$", "Some"):
-            if bb in somes:
-                ps = f.slice(s_["rv"]["ops"][0])
-                tok_ok = tok_ok and any(b == sbb for _, b, _ in ps.calls(c14.SER)) and not callee_allow(ps, PLUMBING + [LAST, FNCALL, c14.SER] + VEC_VIEW)
-        ctx.check(R, "closure-returns-the-token", tok_ok, "the Some(..) payload is the `?` payload of serialize_page_token(..)", (f, sbb))
-        guarded_sites = somes
-        ctx.check(R, "next_page-present-iff-last-is", ok, "Some(token) built only on the Some edge of last(items) (%d), None only on the None edge (%d); other callees %s" % (len(somes), len(nones), [b[0] for b in badn]), (f, wbb))
-    # ---- token errors propagate
-    tries = []
-    for tbb, tt in f.live_calls(r"ops::Try::branch$"):
-        s = f.slice(tt["args"][0])
-        if s.has_call(c14.SER) or s.has_call(r"Option::<T>::map$"):
-            tries.append((tbb, tt))
-    te = try_edges(f, operand_local(tries[0][1]["args"][0])) if len(tries) == 1 else None
-    if not te:
-        ctx.lost(R, "`?` on the token result in ResultsPage::new (%d candidates)" % len(tries))
+        for o in somes:
+            po, _ = L.trace(f, o.info["fields"][0], PLUMBING)
+            tok_ok = tok_ok and L.only_call(po, c14.SER, sbb, L.OK_0)
+        ctx.check(R, "closure-returns-the-token", tok_ok, "the Some(..) payload of next_page must be the Ok payload of serialize_page_token(..) (%d Some sites)" % len(somes), (f, sbb))
+        tests = [(wbb, s_t, n_t) for wbb, s_t, n_t, optop in L.option_edges(f) if L.only_call(L.trace(f, optop, PLUMBING)[0], LAST, lbb, ())]
+        ok = len(tests) == 1 and bool(somes) and bool(nones) and len(somes) + len(nones) == len(nexts)
+        if ok:
+            wbb, s_t, n_t = tests[0]
+            ok = all(feas.edge_dominates(wbb, s_t, o.bb) for o in somes) and all(feas.edge_dominates(wbb, n_t, o.bb) for o in nones) and feas.edge_dominates(wbb, s_t, sbb)
+        ctx.check(R, "next_page-present-iff-last-is", ok, "next_page originates from %s: Some(token) built only where last(items) is Some (%d), None only where it is None (%d); tests of last(items): %d" % (
+            L.describe(nexts), len(somes), len(nones), len(tests)), (f, lbb))
+        err_local = st["dest"]["l"]
+    # ---- token errors propagate (`?`, match + return Err, map_err: the same flow)
+    if err_local is None:
+        ctx.lost(R, "the Result carrying the token error in ResultsPage::new")
         return
-    ctx.check(R, "token-error-propagates", abb not in f.reachable(te["brk"]) and all(f.edge_dominates(te["switch_bb"], te["cont"], b) for b in guarded_sites),
-              "the Break edge of the `?` builds no page and the token value exists only on its Continue edge; a token that cannot be issued is an error, not a silent end of the scan", (f, te["switch_bb"]))
+    ends = L.err_flow(f, err_local)
+    returned = [e for e in ends if e["kind"] == "returned"]
+    unknown = [e for e in ends if e["kind"] != "returned"]
+    passthrough = re.compile(r"convert::(From::from|Into::into)$")
+    plain = all(all(t == ("from",) or (t[0] == "fn" and passthrough.search(t[1])) for t in e["transforms"]) for e in returned)
+    sites = [e["bb"] for e in returned if e["bb"] is not None]
+    split = result_split(f, err_local)
+    prop = bool(returned) and not unknown and plain and split is not None
+    if prop:
+        after = feas.after_edge(split["switch_bb"], split["err"])
+        prop = feas.must_pass_after(split["switch_bb"], split["err"], sites) and not any(b in after for b in page_sites)
+    ctx.check(R, "token-error-propagates", prop,
+              "the token error is returned unchanged on %d path(s), other uses of it: %s; its error edge builds no page: a token that cannot be issued is an error, not a silent end of the scan" % (
+                  len(returned), [e["detail"] for e in unknown] or "none"), (f, split["switch_bb"]) if split else f)
 
 
 def r2a(ctx):
@@ -206,6 +199,15 @@ SELFTEST = [
      "expect": ["C15.R1"], "why": "a non-empty page without a token: with limit=1 the scan stops after one item"},
     {"name": "dec-rejects-ge-max", "kind": "mutant", "edits": [(PG, "if token_str.len() > MAX_TOKEN_LENGTH {", "if token_str.len() >= MAX_TOKEN_LENGTH {")],
      "expect": ["C15.R2b"], "why": "an issued token is refused: the scan cannot continue"},
+    {"name": "inline-token-error-becomes-none", "kind": "mutant",
+     "edits": [(PG, _CHAIN, "        let next_page = match items.last() {\n            Some(last_item) => match serialize_page_token(get_page_selector(last_item, scan_params)) {\n                Ok(token) => Some(token),\n                Err(_) => None,\n            },\n            None => None,\n        };\n")],
+     "expect": ["C15.R1"], "why": "a token that cannot be issued silently ends the scan (match form of token-error-swallowed)"},
+    {"name": "match-on-transposed", "kind": "benign",
+     "edits": [(PG, "            .transpose()?;\n\n        Ok(ResultsPage", "            .transpose();\n        let next_page = match next_page {\n            Ok(token) => token,\n            Err(error) => return Err(error),\n        };\n\n        Ok(ResultsPage")],
+     "why": "behaviour-preserving: `?` written as match + return Err"},
+    {"name": "let-else-early-return", "kind": "benign",
+     "edits": [(PG, _CHAIN + "\n" + _BUILD, "        let Some(last_item) = items.last() else {\n            return Ok(ResultsPage { next_page: None, items });\n        };\n        let token = serialize_page_token(get_page_selector(last_item, scan_params))?;\n        Ok(ResultsPage { next_page: Some(token), items })")],
+     "why": "behaviour-preserving: let-else with an early return for the empty page; two ResultsPage literals"},
     {"name": "rename-closure-param", "kind": "benign",
      "edits": [(PG, "            .map(|last_item| {\n                let selector = get_page_selector(last_item, scan_params);", "            .map(|tail| {\n                let selector = get_page_selector(tail, scan_params);")],
      "why": "behaviour-preserving: renamed closure parameter"},
